@@ -167,10 +167,11 @@ namespace _fmt_basics {
 		while(prefix[prefix_length])
 			prefix_length++;
 
-		int final_width = max(k, precision) + extra + (sign ? 1 : 0) + prefix_length;
+		// (computed in a wide type: the precision may be as large as INT_MAX)
+		long long final_width = static_cast<long long>(max(k, precision)) + extra + (sign ? 1 : 0) + prefix_length;
 
 		if(!left_justify && padding != '0' && final_width < width)
-			for(int i = 0; i < width - final_width; i++)
+			for(long long i = 0; i < width - final_width; i++)
 				sink.append(padding);
 
 		if(sign)
@@ -179,7 +180,7 @@ namespace _fmt_basics {
 			sink.append(prefix);
 
 		if(!left_justify && padding == '0' && final_width < width)
-			for(int i = 0; i < width - final_width; i++)
+			for(long long i = 0; i < width - final_width; i++)
 				sink.append('0');
 
 		if(k < precision) {
@@ -195,7 +196,7 @@ namespace _fmt_basics {
 		}
 
 		if(left_justify && final_width < width)
-			for(int i = final_width; i < width; i++)
+			for(long long i = final_width; i < width; i++)
 				sink.append(' ');
 	}
 
